@@ -34,13 +34,29 @@ def _any():
     return z3.Intersect(z3.AllChar(z3.ReSort(_S)), z3.Complement(z3.Re("\n")))
 
 
-def _cls(items):
+def _swap_ranges(lo, hi):
+    """ASCII case-swapped images of the letters inside [lo, hi]"""
+    out = []
+    a, b = max(lo, 97), min(hi, 122)
+    if a <= b:
+        out.append((a - 32, b - 32))
+    a, b = max(lo, 65), min(hi, 90)
+    if a <= b:
+        out.append((a + 32, b + 32))
+    return out
+
+
+def _cls(items, icase=False):
     parts, negate = [], False
     for op, av in items:
         if op is C.LITERAL:
             parts.append(z3.Re(chr(av)))
+            if icase:
+                parts += [z3.Range(chr(a), chr(b)) for a, b in _swap_ranges(av, av)]
         elif op is C.RANGE:
             parts.append(z3.Range(chr(av[0]), chr(av[1])))
+            if icase:
+                parts += [z3.Range(chr(a), chr(b)) for a, b in _swap_ranges(av[0], av[1])]
         elif op is C.CATEGORY:
             if av is C.CATEGORY_DIGIT:
                 parts.append(z3.Range("0", "9"))
@@ -58,22 +74,23 @@ def _cls(items):
     return r
 
 
-def _conv(p):
+def _conv(p, icase=False):
     out = []
     for op, av in p:
         if op is C.LITERAL:
-            out.append(z3.Re(chr(av)))
+            alts = [z3.Re(chr(av))] + ([z3.Re(chr(a)) for a, _b in _swap_ranges(av, av)] if icase else [])
+            out.append(alts[0] if len(alts) == 1 else z3.Union(*alts))
         elif op is C.IN:
-            out.append(_cls(av))
+            out.append(_cls(av, icase))
         elif op is C.ANY:
             out.append(_any())
         elif op is C.SUBPATTERN:
-            out.append(_conv(av[3]))
+            out.append(_conv(av[3], icase))
         elif op is C.BRANCH:
-            out.append(z3.Union(*[_conv(b) for b in av[1]]))
+            out.append(z3.Union(*[_conv(b, icase) for b in av[1]]))
         elif op in (C.MAX_REPEAT, C.MIN_REPEAT):
             lo, hi, sub = av
-            r = _conv(sub)
+            r = _conv(sub, icase)
             if hi is C.MAXREPEAT:
                 out.append(z3.Concat(*([r] * lo + [z3.Star(r)])) if lo else z3.Star(r))
             elif lo == 0 and hi == 1:
@@ -89,7 +106,9 @@ def _conv(p):
 
 def to_z3(pattern, flags=re.ASCII):
     """z3 regex of the language that ``re.fullmatch(pattern, ...)`` accepts."""
-    return _conv(sre_parse.parse(pattern, flags))
+    if flags & ~(re.ASCII | re.IGNORECASE | re.UNICODE):
+        raise NotImplementedError(f"regex flags {flags!r}")
+    return _conv(sre_parse.parse(pattern, flags), bool(flags & re.IGNORECASE))
 
 
 # ------------------------------------------------------------------ CStr
@@ -210,10 +229,14 @@ class CStr:
         return CStr([z3.If(z3.And(_t(c) >= 65, _t(c) <= 90), _t(c) + 32, _t(c)) for c in self.cs])
 
     def startswith(self, p):
+        if isinstance(p, tuple):  # any of several prefixes
+            return any(self.startswith(q) for q in p)
         p = CStr.of(p)
         return len(p) <= len(self) and self[: len(p)] == p
 
     def endswith(self, p):
+        if isinstance(p, tuple):  # any of several suffixes
+            return any(self.endswith(q) for q in p)
         p = CStr.of(p)
         return len(p) <= len(self) and (len(p) == 0 or self[len(self) - len(p) :] == p)
 
@@ -279,7 +302,14 @@ def _t(c):
 
 
 # ------------------------------------------------------------ (b) symbolic matcher
-def _in_class(items, ch):
+def _in_class(items, ch, icase=False):
+    if icase:
+        lower = z3.If(z3.And(ch >= 65, ch <= 90), ch + 32, ch)
+        upper = z3.If(z3.And(ch >= 97, ch <= 122), ch - 32, ch)
+        neg = any(op is C.NEGATE for op, _ in items)
+        plain = [it for it in items if it[0] is not C.NEGATE]
+        e = z3.Or(_in_class(plain, ch), _in_class(plain, lower), _in_class(plain, upper))
+        return z3.Not(e) if neg else e
     conds, negate = [], False
     for op, av in items:
         if op is C.LITERAL:
@@ -339,6 +369,9 @@ class SxPattern:
         self.groups = real.groups
         self.groupindex = dict(real.groupindex)
         self.tree = sre_parse.parse(real.pattern, real.flags & ~re.UNICODE if real.flags & re.ASCII else real.flags)
+        self.icase = bool(real.flags & re.IGNORECASE)
+        if real.flags & ~(re.ASCII | re.IGNORECASE | re.UNICODE):
+            raise EngineLimit(f"regex flags {real.flags!r}")
 
     # -- backtracking: generators of (end position, groups) in re's preference order
     def _seq(self, nodes, k, s, pos, groups):
@@ -352,16 +385,18 @@ class SxPattern:
     def _node(self, op, av, s, pos, groups):
         n = len(s)
         if op is C.LITERAL:
-            if pos < n and bool(SymBool(_t(s.cs[pos]) == av)):
+            same = z3.Or(_t(s.cs[pos]) == av, *[_t(s.cs[pos]) == a for a, _b in (_swap_ranges(av, av) if self.icase else [])]) if pos < n else None
+            if pos < n and bool(SymBool(same)):
                 yield pos + 1, groups
         elif op is C.NOT_LITERAL:
-            if pos < n and bool(SymBool(_t(s.cs[pos]) != av)):
+            same = z3.Or(_t(s.cs[pos]) == av, *[_t(s.cs[pos]) == a for a, _b in (_swap_ranges(av, av) if self.icase else [])]) if pos < n else None
+            if pos < n and bool(SymBool(z3.Not(same))):
                 yield pos + 1, groups
         elif op is C.ANY:
             if pos < n and bool(SymBool(_t(s.cs[pos]) != 10)):
                 yield pos + 1, groups
         elif op is C.IN:
-            if pos < n and bool(SymBool(_in_class(av, _t(s.cs[pos])))):
+            if pos < n and bool(SymBool(_in_class(av, _t(s.cs[pos]), self.icase))):
                 yield pos + 1, groups
         elif op is C.SUBPATTERN:
             gid, _, _, sub = av
